@@ -164,7 +164,7 @@ Lemma step_down sc w e w' m : step sc w e w' -> Down m w -> starts m e = false -
   Down m w' /\ no_run m (e_items e) /\
   (forall ev, e_kind e = KLoop ev -> forallb (fun i => negb (of_mod m i)) (e_items e) = true).
 Proof.
-  intros Hs Hd Hst. destruct Hs as [stage m1 w|w|w t ev f Hf].
+  intros Hs Hd Hst. destruct Hs as [stage m1 w Hfresh|w|w t ev f Hf].
   - (* start-up stage *)
     unfold start_rec in *. cbn [fst snd e_items e_kind] in *. split; [|split; [|discriminate]].
     + destruct (N.eq_dec m1 m) as [->|Hn].
@@ -213,7 +213,7 @@ Qed.
 
 Lemma step_resets sc w e w' m : step sc w e w' -> resets m e = true -> Down m w'.
 Proof.
-  intros Hs Hr. unfold resets in Hr. destruct Hs as [stage m1 w|w|w t ev f Hf].
+  intros Hs Hr. unfold resets in Hr. destruct Hs as [stage m1 w Hfresh|w|w t ev f Hf].
   - unfold start_rec in *. cbn [fst snd e_items] in *.
     destruct (around_resets sc 0 m1 (start_cb sc stage m1) w m (start_cb_ok _ _ _ _ _) Hr) as [-> H]. exact H.
   - discriminate.
@@ -292,14 +292,7 @@ Theorem inert_while_down sc m pre e post :
 Proof.
   intros E Hd Hst. destruct (run_decomp sc) as (w & tr & HG & [(_ & _ & now & Et & _)|(_ & Et & _)]).
   - rewrite Et in E.
-    assert (Hcase : (exists post', tr = pre ++ e :: post') \/
-                    (exists pre', pre = tr ++ pre' /\ snd (end_seq sc now (mods sc) w) = pre' ++ e :: post)).
-    { clear -E. revert pre E. induction tr as [|x tr IH]; intros pre E; cbn [app] in E.
-      - right. exists pre. auto.
-      - destruct pre as [|p pre]; cbn [app] in E.
-        + injection E as <- E. left. exists tr. reflexivity.
-        + injection E as <- E. destruct (IH pre E) as [(post' & ->)|(pre' & -> & H)]; [left; eauto|right; eauto]. }
-    destruct Hcase as [(post' & Etr)|(pre' & -> & Eend)].
+    destruct (app_split_mid _ _ _ _ _ E) as [(post' & Etr)|(pre' & -> & Eend)].
     + destruct (gen_split sc w tr HG pre e post' Etr) as (w1 & w2 & HG1 & Hs).
       destruct (step_down sc w1 e w2 m Hs (gen_down sc m w1 pre HG1 Hd) Hst) as (_ & H1 & H2). auto.
     + (* a tear-down record *)
